@@ -399,6 +399,13 @@ def render_tie(ctx, scenes, tol64=1e-9, tol32=2e-5, workers=None, jit32=False):
     real64 = run_real(scenes, True, workers)
     sc32 = [cast32_scene(s) for s in scenes]
     real32 = run_real(sc32, False, workers, jit=jit32)
+    # the renderer's amplitude table must have the number of components it was built with (a difference is a disagreement
+    # between code and model, not a failure of this harness)
+    for sc_list, reals in ((scenes, real64), (sc32, real32)):
+        for sc, rr in zip(sc_list, reals):
+            if rr["error"] is None and sc["interp"] and any(len(a) != sc["nsig"] for _, a in rr["amps"]):
+                rr["error"] = (f"the renderer built with n_sigma={sc['nsig']} interpolates an amplitude table of "
+                               f"{len(rr['amps'][0][1])} components")
     lines64 = [scene_line(s, r["amps"]) for s, r in zip(scenes, real64) if r["error"] is None]
     lines32 = [scene_line(s, r["amps"]) for s, r in zip(sc32, real32) if r["error"] is None]
     rep64 = iter(ctx.driver.ask(lines64))
